@@ -112,6 +112,30 @@ def make_cases(rng, n, maxdepth):
                 # the paths beside the compiled product kernel: narrow / single-precision / complex coefficient dtypes
                 # (integer-valued, small enough not to wrap) and exponent sums beyond one key byte
                 s1, s2 = gen.broadcast_pair(rng, 2)
+                if rng.random() < 0.35:
+                    # unsigned operands (polynomial, ndarray or numpy scalar) next to signed ones: the result dtype can
+                    # hold the exact value, so it has to be the exact one (nothing may be negated or added in the
+                    # narrow unsigned type on the way)
+                    ud = rng.choice([numpy.uint8, numpy.uint16, numpy.uint32, numpy.uint64])
+                    a = gen.rand_poly(rng, s1, gen.rand_names(rng, 2), nterms=rng.choice([1, 2, 3]), maxexp=2,
+                                      dtype=rng.choice([numpy.int64, numpy.float64, numpy.int16]))
+                    size2 = int(numpy.prod(s2)) if s2 else 1
+                    uarr = numpy.array([rng.choice([0, 1, 2, 3, 200]) for _ in range(size2)], dtype=ud).reshape(s2)
+                    form = rng.choice(["poly", "array", "scalar", "times"])
+                    if form == "poly":
+                        b = numpoly.polynomial(uarr)
+                    elif form == "array":
+                        b = uarr
+                    elif form == "scalar":
+                        b = ud(rng.choice([1, 2, 200]))
+                    else:
+                        b = numpoly.polynomial(uarr) * numpoly.variable(dtype=ud)
+                    if rng.random() < 0.3:
+                        a, b = b, a
+                    leaves = [a, b]
+                    tree = (rng.choice(["sub", "sub", "add", "mul"]), ("leaf", 0), ("leaf", 1))
+                    cases.append((tree, leaves, rng.random() < 0.3))
+                    continue
                 if rng.random() < 0.6:
                     dts = [numpy.int32, numpy.int16, numpy.float32, numpy.complex64, numpy.complex128, numpy.float16]
                     d1 = rng.choice(dts)
